@@ -293,7 +293,16 @@ func deathSite(stderr string) string {
 	if j := strings.Index(stderr, "fatal error:"); j >= 0 && (i < 0 || j < i) {
 		i = j
 	}
-	for _, l := range strings.Split(stderr[i:], "\n") {
+	// only the goroutine that panicked / threw: the first goroutine block
+	blk := stderr[i:]
+	if g := strings.Index(blk, "\ngoroutine "); g >= 0 {
+		rest := blk[g+1:]
+		if e := strings.Index(rest, "\n\n"); e >= 0 {
+			rest = rest[:e]
+		}
+		blk = rest
+	}
+	for _, l := range strings.Split(blk, "\n") {
 		if m := sodFrame.FindStringSubmatch(l); m != nil && !strings.Contains(strings.ToLower(m[1]), "verif") {
 			s := strings.NewReplacer("(*", "", ")", "").Replace(m[1])
 			if k := strings.Index(s, ".func"); k > 0 {
